@@ -18,6 +18,12 @@ DEFAULT_RULE = ("cases come from harness/src/gen.rs (one SplitMix64 stream seede
                 "(at least one database/shell/sleep event, or a failure verdict)")
 
 PROPS = {
+    "C05": {
+        "runs": [{"profile": "c05", "n_quick": 12000, "n_thorough": 250000, "nontrivial": "fmt"}],
+        "observable": "bytes written by Display for the parsed records (+ tail normalisation) and the records obtained by re-parsing them; metamorphic oracle on the implementation alone: parse(fmt s) ~ parse s, fmt(fmt s) = fmt s",
+        "explanation": "all 18 repository fixtures; sweep of 300 duration tokens around every radix boundary of humantime's format (in sleep and in retry clauses of statement/system); random well-formed scripts under random layouts (C03 generator); line/token/byte mutations of them (parseable ones are formatted, the others counted as parse errors)",
+        "assumptions": ["the library-level writer is Display + `writeln!`; the CLI's --format path on real files is exercised by the C08 check"],
+    },
     "C04": {
         "runs": [
             {"profile": "c04", "n_quick": 30000, "n_thorough": 600000, "oracle": "c04", "nontrivial": "parse"},
